@@ -24,8 +24,8 @@ rm -f $R/tests/demo_seed.rs
 ( cd $R && cargo test --offline --no-fail-fast 2>&1 | grep -E "^test result|^test .* FAILED" > /tmp/seed-suite.log )
 FAILED=$(grep "FAILED" /tmp/seed-suite.log | grep -v test_write_include | tr '\n' ' ')
 log "pinned suite with patch: $(grep -c '^test result: ok' /tmp/seed-suite.log) ok binaries; failing tests other than the flaky one: [${FAILED}]"
-git -C $R diff > /tmp/seed-current.diff
-git -C $R checkout -q -- . ; git -C $R clean -qfd
+git -C $R diff HEAD > /tmp/seed-current.diff
+git -C $R reset -q --hard ; git -C $R clean -qfd
 for P in "$@"; do
   res=$(MUT_BASE=$HEAD MUT_ARGS="--tier quick" /verif/scripts/mutant_run.sh -w seed /tmp/seed-current.diff $P 2>&1 | tail -1 | cut -c1-330)
   log "check $res"
